@@ -372,6 +372,8 @@ def rrs_layer(ctx, repo, hdap_ci, hdap_stub):
     ctx.ob("connected/flag", q, not flag_bad_r, "; ".join(sorted(set(flag_bad_r))[:3]) or "flag follows connect/close, whatever the payload", rdr.loc)
     ctx.ob("rrs/registry", q, not reg_bad, "; ".join(sorted(set(reg_bad))[:3]) or f"{n_r} paths: registry follows the last registration / offline message", rdr.loc)
     sn_invariant(ctx, repo, rci)
+    with ctx.guard("log arguments"):
+        log_arguments(ctx, repo)
     ctx.ob("rrs/confirm-once", q, not conf_bad, "; ".join(sorted(set(conf_bad))[:3]) or "one success answer per registration request with a bounded S/N", rdr.loc)
 
 
@@ -431,6 +433,59 @@ def _check_ack(I, st, e):
     if e[2].get("addr", e[1][1] if len(e[1]) > 1 else None) != ("10.0.0.1", 50000):
         return "answer is not addressed to the sender"
     return None
+
+
+TOTAL_CODECS = {"latin", "latin1", "latin-1", "latin_1", "iso-8859-1", "iso8859-1", "l1", "cp437", "raw_unicode_escape"}   # every octet string decodes
+
+
+def log_arguments(ctx, repo):
+    """'handling never raises' includes what the handlers hand to their log calls: they are evaluated eagerly.  Where a handler logs
+    repr(<received PDU>), every __repr__ / __str__ that can be reached from an HSTRP packet (HSTRP itself, its option / type objects,
+    every HDAP payload class and the classes of their fields) must be total: no strict decoding of received octets"""
+    ctx.rule("handler/log-arguments", "where a handler logs repr() of a received packet, no reachable __repr__ / __str__ decodes received octets with a codec that can fail (no errors= argument, not a total codec, not inside a try that catches it)")
+    handlers = [repo.cls(HMOD, "HSTRPDatagramProtocol"), repo.cls(RMOD, "RRSDatagramProtocol")]
+    logs_repr = []
+    for ci in handlers:
+        for m in ci.methods.values():
+            for n in ast.walk(m.node):
+                if isinstance(n, ast.Call) and isinstance(n.func, ast.Attribute) and n.func.attr.startswith(("log_", "debug", "info", "warning", "error")):
+                    for a in list(n.args) + [k.value for k in n.keywords]:
+                        for x in ast.walk(a):
+                            if isinstance(x, ast.Call) and isinstance(x.func, ast.Name) and x.func.id in ("repr", "str") and x.args and not isinstance(x.args[0], ast.Constant):
+                                logs_repr.append(f"{m.qualname}:{n.lineno}")
+                            elif isinstance(x, ast.FormattedValue) and isinstance(x.value, ast.Name) and x.value.id in ("pdu", "hstrp", "request", "payload"):
+                                logs_repr.append(f"{m.qualname}:{n.lineno}")
+    if not logs_repr:
+        ctx.ob("handler/log-arguments", "handlers", True, "no handler logs the repr of a received packet", handlers[0].loc)
+        return
+    hdap = repo.cls("hytera.pdu.hdap", "HDAP")
+    reach = [c for c in repo.all_classes() if c.module.short.startswith("hytera.pdu.") and (hdap in repo.mro(c) or c.name.startswith("HSTRP") or c.name in ("RadioIP", "GPSData"))]
+    n_repr = 0
+    for c in reach:
+        for name in ("__repr__", "__str__"):
+            m = c.methods.get(name)
+            if m is None:
+                continue
+            n_repr += 1
+            guarded = set()
+            for t in ast.walk(m.node):
+                if isinstance(t, ast.Try) and any(h.type is None or any(isinstance(y, ast.Name) and y.id in ("Exception", "UnicodeDecodeError", "UnicodeError", "ValueError", "BaseException") for y in ast.walk(h.type)) for h in t.handlers):
+                    for b in t.body:
+                        guarded.update(id(y) for y in ast.walk(b))
+            bad = []
+            for x in ast.walk(m.node):
+                if not (isinstance(x, ast.Call) and isinstance(x.func, ast.Attribute) and x.func.attr == "decode") or id(x) in guarded:
+                    continue
+                if any(k.arg == "errors" for k in x.keywords) or len(x.args) >= 2:
+                    continue
+                codec = x.args[0].value if x.args and isinstance(x.args[0], ast.Constant) and isinstance(x.args[0].value, str) else None
+                if codec is not None and codec.lower() in TOTAL_CODECS:
+                    continue
+                bad.append(f"line {x.lineno}: {ast.unparse(x)[:70]}")
+            ctx.ob("handler/log-arguments", f"{c.qualname}.{name}", not bad,
+                   (f"logged by {logs_repr[0]}; " + "; ".join(bad[:2]) + " — raises UnicodeDecodeError for received octets that are not valid text") if bad else "total", m.loc)
+    if n_repr < 5:
+        raise AnalysisError(f"only {n_repr} __repr__ methods of HSTRP / HDAP classes found")
 
 
 def sn_invariant(ctx, repo, pci):
